@@ -37,6 +37,8 @@ def to_py(w):
         return o
     if 'x' in w:
         return dyn.EXC[w['x']]('boom')
+    if 'cls' in w:       # a class object passed around as data (an event type, a model class)
+        return {'ValueError': ValueError, 'KeyError': KeyError, 'dict': dict, 'Obj': dyn.Obj}[w['cls']]
     if 'dup' in w:
         x = to_py(w['dup'])
         return [x, x]
